@@ -15,7 +15,42 @@
 //!         (K = max(#inserting ops + 1, largest handle mentioned)), sorted; stats = TmsStats fields.
 use rre_harness::*;
 use rust_rule_engine::rete::tms::TruthMaintenanceSystem;
-use rust_rule_engine::rete::{FactHandle, IncrementalEngine, TypedFacts};
+use rust_rule_engine::rete::{
+    ActionResult, AlphaNode, DeffactsBuilder, FactHandle, FactValue, GrlReteLoader, IncrementalEngine, ReteUlNode, TemplateBuilder,
+    TypedFacts, TypedReteUlRule,
+};
+use std::sync::{Arc, Mutex};
+
+/// the one ActionResult the fired rule's action returns (op `F<a>`)
+#[derive(Clone, Debug, PartialEq)]
+enum Act {
+    R(u64),      // r<h>  ActionResult::Retract(h)            (what GRL `retract($X)` produces)
+    T(u64),      // t<h>  ActionResult::RetractByType(type of h)  (deterministic only for `N` facts: a type of their own)
+    I,           // i     ActionResult::InsertFact
+    L(Vec<u64>), // l<ps> ActionResult::InsertLogicalFact { premises }
+    U(u64),      // u<h>  ActionResult::Update(h)
+    N,           // n     ActionResult::None
+    G,           // g     ActionResult::ActivateAgendaGroup
+    C,           // c     ActionResult::CallFunction (not registered)
+    S,           // s     ActionResult::ScheduleRule
+    M,           // m     no result: the action modifies F.v / adds D.w, fire_all writes the fields back (working_memory.update)
+}
+
+/// the reach ops: engine paths beyond insert / insert_explicit / insert_logical / retract / tms_mut()
+#[derive(Clone, Debug, PartialEq)]
+enum Ext {
+    N,      // engine.insert("N<handle>", ..): a fact type of its own
+    P,      // engine.insert_with_template("P", ..)
+    D,      // engine.load_deffacts_by_name("one")   (one fact, of the template type)
+    G,      // engine.load_deffacts()
+    U(u64), // engine.update(h, ..)
+    A,      // engine.add_rule(aux rule depending on F, D)
+    Z,      // engine.reset()
+    F(Act), // engine.insert("T", go=1) [step 1]; reset(); fire_all() with the scripted action [step 2]
+    K(u64), // engine.update(h, kill=true); reset(); fire_all(): GRL rule `when F.kill == true then retract($F)`
+    W,      // engine.reset_with_deffacts()
+    Lk(Vec<u64>), // engine.resolve_premise_keys(["<type>.id=<p>", ..]) must find the live premises; then insert_logical
+}
 
 #[derive(Clone, Debug, PartialEq)]
 enum Op {
@@ -26,14 +61,20 @@ enum Op {
     X(u64),
     R(u64),
     C,
+    Ext(Ext),
 }
+// Ext::Lk(ps): insert_logical after resolve_premise_keys
 
 fn parse_op(t: &str) -> Option<Op> {
+    if t.is_empty() {
+        return None;
+    }
     let (k, rest) = t.split_at(1);
     Some(match k {
         "I" if rest.is_empty() => Op::I,
         "E" if rest.is_empty() => Op::E,
         "C" if rest.is_empty() => Op::C,
+        "L" if rest.starts_with('k') => Op::Ext(Ext::Lk(parse_nums(&rest[1..])?)),
         "L" => Op::L(parse_nums(rest)?),
         "J" => {
             let (f, ps) = rest.split_once(':')?;
@@ -41,6 +82,31 @@ fn parse_op(t: &str) -> Option<Op> {
         }
         "X" => Op::X(rest.parse().ok()?),
         "R" => Op::R(rest.parse().ok()?),
+        "N" if rest.is_empty() => Op::Ext(Ext::N),
+        "P" if rest.is_empty() => Op::Ext(Ext::P),
+        "D" if rest.is_empty() => Op::Ext(Ext::D),
+        "G" if rest.is_empty() => Op::Ext(Ext::G),
+        "A" if rest.is_empty() => Op::Ext(Ext::A),
+        "Z" if rest.is_empty() => Op::Ext(Ext::Z),
+        "W" if rest.is_empty() => Op::Ext(Ext::W),
+        "U" => Op::Ext(Ext::U(rest.parse().ok()?)),
+        "K" => Op::Ext(Ext::K(rest.parse().ok()?)),
+        "F" if !rest.is_empty() => {
+            let (a, arg) = rest.split_at(1);
+            Op::Ext(Ext::F(match a {
+                "r" => Act::R(arg.parse().ok()?),
+                "t" => Act::T(arg.parse().ok()?),
+                "u" => Act::U(arg.parse().ok()?),
+                "i" if arg.is_empty() => Act::I,
+                "n" if arg.is_empty() => Act::N,
+                "g" if arg.is_empty() => Act::G,
+                "c" if arg.is_empty() => Act::C,
+                "s" if arg.is_empty() => Act::S,
+                "m" if arg.is_empty() => Act::M,
+                "l" => Act::L(parse_nums(arg)?),
+                _ => return None,
+            }))
+        }
         _ => return None,
     })
 }
@@ -54,6 +120,30 @@ fn show_op(o: &Op) -> String {
         Op::X(f) => format!("X{}", f),
         Op::R(h) => format!("R{}", h),
         Op::C => "C".into(),
+        Op::Ext(e) => match e {
+            Ext::N => "N".into(),
+            Ext::P => "P".into(),
+            Ext::D => "D".into(),
+            Ext::G => "G".into(),
+            Ext::A => "A".into(),
+            Ext::Z => "Z".into(),
+            Ext::W => "W".into(),
+            Ext::U(h) => format!("U{}", h),
+            Ext::K(h) => format!("K{}", h),
+            Ext::Lk(ps) => format!("Lk{}", join_nums(ps)),
+            Ext::F(a) => match a {
+                Act::R(h) => format!("Fr{}", h),
+                Act::T(h) => format!("Ft{}", h),
+                Act::U(h) => format!("Fu{}", h),
+                Act::I => "Fi".into(),
+                Act::N => "Fn".into(),
+                Act::G => "Fg".into(),
+                Act::C => "Fc".into(),
+                Act::S => "Fs".into(),
+                Act::M => "Fm".into(),
+                Act::L(ps) => format!("Fl{}", join_nums(ps)),
+            },
+        },
     }
 }
 
@@ -65,73 +155,173 @@ fn show_case(ops: &[Op]) -> String {
     ops.iter().map(show_op).collect::<Vec<_>>().join(" ")
 }
 
-fn universe(ops: &[Op]) -> u64 {
-    let mut ins = 0u64;
+fn has_ext(ops: &[Op]) -> bool {
+    ops.iter().any(|o| matches!(o, Op::Ext(_)))
+}
+
+/// the fact types of the handles an operation creates, in creation order (F / D: the shared types of explicit / logical
+/// facts, N: a type of its own, P: the template type, T: trigger facts)
+fn kinds_of(o: &Op) -> &'static [u8] {
+    match o {
+        Op::I | Op::E => b"F",
+        Op::L(_) | Op::Ext(Ext::Lk(_)) => b"D",
+        Op::Ext(Ext::N) => b"N",
+        Op::Ext(Ext::P) | Op::Ext(Ext::D) | Op::Ext(Ext::G) | Op::Ext(Ext::W) => b"P",
+        Op::Ext(Ext::F(Act::I)) => b"TF",
+        Op::Ext(Ext::F(Act::L(_))) => b"TD",
+        Op::Ext(Ext::F(_)) => b"T",
+        _ => b"",
+    }
+}
+
+fn kind_at(kinds: &[u8], h: u64) -> u8 {
+    if h == 0 { b'?' } else { kinds.get(h as usize - 1).copied().unwrap_or(b'?') }
+}
+
+/// the histories of a case: `W` (reset_with_deffacts) starts a new one, of which it is the first operation
+fn segments(ops: &[Op]) -> Vec<Vec<Op>> {
+    let mut segs: Vec<Vec<Op>> = vec![Vec::new()];
+    for o in ops {
+        if matches!(o, Op::Ext(Ext::W)) {
+            segs.push(Vec::new());
+        }
+        segs.last_mut().unwrap().push(o.clone());
+    }
+    segs.retain(|s| !s.is_empty());
+    segs
+}
+
+/// `K<h>` / `Ft<h>` name a handle the code can only reach when `h` has the right fact type (K: a GRL rule exists for F and D;
+/// t: only an `N` fact has its type to itself): the handle the operation is about, or 0 = nothing happens
+fn eff_target(kinds: &[u8], o: &Op) -> Option<u64> {
+    match o {
+        Op::Ext(Ext::K(h)) => Some(if matches!(kind_at(kinds, *h), b'F' | b'D') { *h } else { 0 }),
+        Op::Ext(Ext::F(Act::T(h))) => Some(if kind_at(kinds, *h) == b'N' { *h } else { 0 }),
+        _ => None,
+    }
+}
+
+/// universe of one history (the driver computes the same number: Spec.universeOf of the desugared operations)
+fn universe_seg(ops: &[Op]) -> u64 {
+    let kinds: Vec<u8> = ops.iter().flat_map(|o| kinds_of(o).iter().copied()).collect();
+    let ins = kinds.len() as u64;
     let mut mx = 0u64;
+    let top = |ps: &Vec<u64>| ps.iter().copied().max().unwrap_or(0);
     for o in ops {
         match o {
-            Op::I | Op::E => ins += 1,
-            Op::L(ps) => {
-                ins += 1;
-                mx = mx.max(ps.iter().copied().max().unwrap_or(0));
-            }
-            Op::J(f, ps) => mx = mx.max(*f).max(ps.iter().copied().max().unwrap_or(0)),
+            Op::I | Op::E | Op::C => {}
+            Op::L(ps) => mx = mx.max(top(ps)),
+            Op::J(f, ps) => mx = mx.max(*f).max(top(ps)),
             Op::X(f) | Op::R(f) => mx = mx.max(*f),
-            Op::C => {}
+            Op::Ext(Ext::F(Act::R(h))) => mx = mx.max(*h),
+            Op::Ext(Ext::F(Act::L(ps))) | Op::Ext(Ext::Lk(ps)) => mx = mx.max(top(ps)),
+            Op::Ext(_) => mx = mx.max(eff_target(&kinds, o).unwrap_or(0)),
         }
     }
     (ins + 1).max(mx)
+}
+
+fn universe(ops: &[Op]) -> u64 {
+    segments(ops).iter().map(|s| universe_seg(s)).max().unwrap_or(1)
 }
 
 fn hs(v: &[u64]) -> Vec<FactHandle> {
     v.iter().map(|x| FactHandle::new(*x)).collect()
 }
 
-fn exec(case: &str) -> String {
-    let Some(ops) = parse_case(case) else { return "bad-case".into() };
-    let k = universe(&ops);
-    let mut eng = IncrementalEngine::new();
-    let mut twin = TruthMaintenanceSystem::new();
-    let mut steps = Vec::new();
-    for op in &ops {
-        let res = match op {
-            Op::I => {
-                let h = eng.insert("F".to_string(), TypedFacts::new());
-                twin.add_explicit_justification(h);
-                format!("h{}", h.id())
+/// (the ActionResult the next firing returns, a value the action writes into F.v / D.w first — 0 = it modifies nothing)
+type Script = Arc<Mutex<(Option<ActionResult>, i64)>>;
+
+/// what a case with reach ops needs on the engine before the first fact: the trigger rule `act` (built through the API; its
+/// action returns the scripted ActionResult), the GRL rules killF / killD (`retract($F)`), the template P and the deffacts `one`
+fn setup_engine(eng: &mut IncrementalEngine, script: &Script) {
+    let sc = script.clone();
+    let rule = TypedReteUlRule {
+        name: "act".to_string(),
+        node: ReteUlNode::UlAlpha(AlphaNode { field: "T.go".to_string(), operator: ">".to_string(), value: "0".to_string() }),
+        priority: 0,
+        no_loop: true,
+        action: Arc::new(move |facts, results| {
+            let mut g = sc.lock().unwrap();
+            if g.1 != 0 {
+                facts.set("F.v", FactValue::Integer(g.1));
+                facts.set("D.w", FactValue::Integer(g.1));
+                g.1 = 0;
             }
-            Op::E => {
-                let h = eng.insert_explicit("F".to_string(), TypedFacts::new());
-                twin.add_explicit_justification(h);
-                format!("h{}", h.id())
+            if let Some(a) = g.0.take() {
+                results.add(a);
             }
-            Op::L(ps) => {
-                let h = eng.insert_logical("D".to_string(), TypedFacts::new(), "rule".to_string(), hs(ps));
-                twin.add_logical_justification(h, "rule".to_string(), hs(ps));
-                format!("h{}", h.id())
-            }
-            Op::J(f, ps) => {
-                eng.tms_mut().add_logical_justification(FactHandle::new(*f), "rule2".to_string(), hs(ps));
-                twin.add_logical_justification(FactHandle::new(*f), "rule2".to_string(), hs(ps));
-                "u".to_string()
-            }
-            Op::X(f) => {
-                eng.tms_mut().add_explicit_justification(FactHandle::new(*f));
-                twin.add_explicit_justification(FactHandle::new(*f));
-                "u".to_string()
-            }
-            Op::R(h) => match eng.retract(FactHandle::new(*h)) {
-                Ok(()) => {
-                    let c = twin.retract_with_cascade(FactHandle::new(*h));
-                    format!("ok:{}", join_nums(&c.iter().map(|x| x.id()).collect::<Vec<_>>()))
-                }
-                Err(_) => "err".to_string(),
-            },
-            Op::C => {
-                eng.working_memory_mut().clear_modification_tracking();
-                "c".to_string()
-            }
-        };
+        }),
+    };
+    eng.add_rule(rule, vec!["T".to_string()]);
+    let grl = "rule \"killF\" no-loop { when F.kill == true then retract($F); }\n\
+               rule \"killD\" no-loop { when D.kill == true then retract($D); }\n";
+    GrlReteLoader::load_from_string(grl, eng).expect("kill rules load");
+    eng.templates_mut().register(TemplateBuilder::new("P").integer_field("v").integer_field("id").build());
+    let mut d = TypedFacts::new();
+    d.set("v", FactValue::Integer(1));
+    eng.deffacts_mut().register(DeffactsBuilder::new("one").add_fact("P", d).build()).expect("deffacts");
+}
+
+fn aux_rule(i: usize) -> TypedReteUlRule {
+    TypedReteUlRule {
+        name: format!("aux{}", i),
+        node: ReteUlNode::UlAlpha(AlphaNode { field: "F.v".to_string(), operator: ">=".to_string(), value: "0".to_string() }),
+        priority: 5,
+        no_loop: true,
+        action: Arc::new(|_, _| {}),
+    }
+}
+
+/// fact data: `id` = the handle the fact gets / has (what resolve_premise_keys looks facts up by)
+fn data_id(v: i64, id: u64) -> TypedFacts {
+    let mut d = TypedFacts::new();
+    d.set("v", FactValue::Integer(v));
+    d.set("id", FactValue::Integer(id as i64));
+    d
+}
+
+struct Run {
+    eng: IncrementalEngine,
+    twin: TruthMaintenanceSystem,
+    types: Vec<String>, // fact type of handle i+1 (this history)
+    noid: Vec<u64>,     // handles whose data has no `id` field (deffacts facts)
+    k: u64,
+    deep: bool,
+    steps: Vec<String>,
+}
+
+impl Run {
+    fn next(&self) -> u64 {
+        self.types.len() as u64 + 1
+    }
+    fn present(&self, h: u64) -> bool {
+        self.eng.working_memory().get(&FactHandle::new(h)).is_some()
+    }
+    fn created(&mut self, h: FactHandle, ty: &str, explicit: bool, ps: &[u64]) -> String {
+        let mut flag = "";
+        if h.id() != self.types.len() as u64 + 1 {
+            flag = "!handle";
+        }
+        self.types.push(ty.to_string());
+        if explicit {
+            self.twin.add_explicit_justification(h);
+        } else {
+            self.twin.add_logical_justification(h, "rule".to_string(), hs(ps));
+        }
+        format!("h{}{}", h.id(), flag)
+    }
+    /// the retraction of `h` happened inside the engine (Ok swallowed): result as for `R`, from the state before
+    fn retracted(&mut self, h: u64, was_present: bool) -> String {
+        if was_present {
+            let c = self.twin.retract_with_cascade(FactHandle::new(h));
+            format!("ok:{}", join_nums(&c.iter().map(|x| x.id()).collect::<Vec<_>>()))
+        } else {
+            "err".to_string()
+        }
+    }
+    fn observe(&mut self, res: String) {
+        let (eng, twin, k) = (&self.eng, &self.twin, self.k);
         let mut flags = String::new();
         let present: Vec<u64> = (1..=k).filter(|i| eng.working_memory().get(&FactHandle::new(*i)).is_some()).collect();
         let mut logical: Vec<u64> = eng.tms().get_logical_facts().iter().map(|h| h.id()).collect();
@@ -158,8 +348,38 @@ fn exec(case: &str) -> String {
         if listed != present {
             flags.push_str("!listing");
         }
+        if self.deep {
+            // further public views of the same state: get_justifications (engine vs twin), the type index, the counters
+            for i in 1..=k {
+                let h = FactHandle::new(i);
+                let a: Vec<(u64, bool, Vec<u64>)> = eng.tms().get_justifications(h).iter()
+                    .map(|j| (j.fact_handle.id(), j.source_rule.is_none(), j.premise_facts.iter().map(|p| p.id()).collect())).collect();
+                let b: Vec<(u64, bool, Vec<u64>)> = twin.get_justifications(h).iter()
+                    .map(|j| (j.fact_handle.id(), j.source_rule.is_none(), j.premise_facts.iter().map(|p| p.id()).collect())).collect();
+                if a != b || a.iter().any(|j| j.0 != i) {
+                    flags.push_str("!justs");
+                }
+            }
+            let mut tys: Vec<&String> = self.types.iter().collect();
+            tys.sort();
+            tys.dedup();
+            let mut by_type: Vec<u64> = tys.iter().flat_map(|t| eng.working_memory().get_by_type(t).iter().map(|f| f.handle.id()).collect::<Vec<_>>()).collect();
+            by_type.sort();
+            if by_type != present {
+                flags.push_str("!bytype");
+            }
+            for i in &present {
+                if eng.working_memory().get(&FactHandle::new(*i)).map(|f| f.fact_type.clone()) != self.types.get(*i as usize - 1).cloned() {
+                    flags.push_str("!type");
+                }
+            }
+            let ws = eng.working_memory().stats();
+            if ws.active_facts != present.len() || ws.total_facts != self.types.len() || ws.retracted_facts != self.types.len() - present.len() {
+                flags.push_str("!wmstats");
+            }
+        }
         let st = eng.tms().stats();
-        steps.push(format!(
+        self.steps.push(format!(
             "{}{}/{}/{}/{}/{}/{},{},{},{}",
             res,
             flags,
@@ -173,7 +393,184 @@ fn exec(case: &str) -> String {
             st.retracted_facts
         ));
     }
-    if steps.is_empty() { "-".into() } else { steps.join(";") }
+}
+
+fn exec(case: &str) -> String {
+    let Some(ops) = parse_case(case) else { return "bad-case".into() };
+    let k = universe(&ops);
+    let ext = has_ext(&ops);
+    let script: Script = Arc::new(Mutex::new((None, 0)));
+    let mut r = Run {
+        eng: IncrementalEngine::new(),
+        twin: TruthMaintenanceSystem::new(),
+        types: Vec::new(),
+        noid: Vec::new(),
+        k,
+        deep: ext || k <= 40,
+        steps: Vec::new(),
+    };
+    if ext {
+        setup_engine(&mut r.eng, &script);
+    }
+    let mut naux = 0usize;
+    for op in &ops {
+        let res = match op {
+            Op::I => {
+                let h = r.eng.insert("F".to_string(), data_id(1, r.next()));
+                r.created(h, "F", true, &[])
+            }
+            Op::E => {
+                let h = r.eng.insert_explicit("F".to_string(), data_id(2, r.next()));
+                r.created(h, "F", true, &[])
+            }
+            Op::L(ps) => {
+                let h = r.eng.insert_logical("D".to_string(), data_id(3, r.next()), "rule".to_string(), hs(ps));
+                r.created(h, "D", false, ps)
+            }
+            Op::J(f, ps) => {
+                r.eng.tms_mut().add_logical_justification(FactHandle::new(*f), "rule2".to_string(), hs(ps));
+                r.twin.add_logical_justification(FactHandle::new(*f), "rule2".to_string(), hs(ps));
+                "u".to_string()
+            }
+            Op::X(f) => {
+                r.eng.tms_mut().add_explicit_justification(FactHandle::new(*f));
+                r.twin.add_explicit_justification(FactHandle::new(*f));
+                "u".to_string()
+            }
+            Op::R(h) => match r.eng.retract(FactHandle::new(*h)) {
+                Ok(()) => r.retracted(*h, true),
+                Err(_) => "err".to_string(),
+            },
+            Op::C => {
+                r.eng.working_memory_mut().clear_modification_tracking();
+                let wm = r.eng.working_memory();
+                if wm.get_modified_handles().is_empty() && wm.get_retracted_handles().is_empty() { "c".to_string() } else { "c!tracking".to_string() }
+            }
+            Op::Ext(e) => match e {
+                Ext::N => {
+                    let ty = format!("N{}", r.types.len() + 1);
+                    let h = r.eng.insert(ty.clone(), data_id(4, r.next()));
+                    r.created(h, &ty, true, &[])
+                }
+                Ext::P => match r.eng.insert_with_template("P", data_id(5, r.next())) {
+                    Ok(h) => r.created(h, "P", true, &[]),
+                    Err(_) => "err!template".to_string(),
+                },
+                Ext::D => match r.eng.load_deffacts_by_name("one") {
+                    Ok(v) if v.len() == 1 => {
+                        r.noid.push(v[0].id());
+                        r.created(v[0], "P", true, &[])
+                    }
+                    _ => "err!deffacts".to_string(),
+                },
+                Ext::G => {
+                    let v = r.eng.load_deffacts();
+                    if v.len() == 1 {
+                        r.noid.push(v[0].id());
+                        r.created(v[0], "P", true, &[])
+                    } else {
+                        "err!deffacts".to_string()
+                    }
+                }
+                Ext::Lk(ps) => {
+                    let keys: Vec<String> = ps.iter()
+                        .map(|p| format!("{}.id={}", r.types.get((*p as usize).wrapping_sub(1)).cloned().unwrap_or_else(|| "none".to_string()), p))
+                        .collect();
+                    let got: Vec<u64> = r.eng.resolve_premise_keys(keys).iter().map(|h| h.id()).collect();
+                    let want: Vec<u64> = ps.iter().copied().filter(|p| r.present(*p) && !r.noid.contains(p)).collect();
+                    let flag = if got != want { "!resolve" } else { "" };
+                    let h = r.eng.insert_logical("D".to_string(), data_id(3, r.next()), "rule".to_string(), hs(ps));
+                    format!("{}{}", r.created(h, "D", false, ps), flag)
+                }
+                Ext::U(h) => {
+                    let was = r.present(*h);
+                    let ok = r.eng.update(FactHandle::new(*h), data_id(6, *h)).is_ok();
+                    if ok {
+                        r.noid.retain(|x| x != h);
+                    }
+                    if ok == was { "c".to_string() } else { "c!update".to_string() }
+                }
+                Ext::A => {
+                    naux += 1;
+                    r.eng.add_rule(aux_rule(naux), vec!["F".to_string(), "D".to_string()]);
+                    "c".to_string()
+                }
+                Ext::Z => {
+                    r.eng.reset();
+                    "c".to_string()
+                }
+                Ext::W => {
+                    let v = r.eng.reset_with_deffacts();
+                    r.types.clear();
+                    r.noid = vec![1];
+                    r.twin = TruthMaintenanceSystem::new();
+                    if v.len() == 1 { r.created(v[0], "P", true, &[]) } else { "err!deffacts".to_string() }
+                }
+                Ext::K(h) => {
+                    let was = r.present(*h);
+                    let ty = r.types.get((*h as usize).wrapping_sub(1)).cloned().unwrap_or_default();
+                    let mut d = data_id(7, *h);
+                    d.set("kill", FactValue::Boolean(true));
+                    let ok = r.eng.update(FactHandle::new(*h), d).is_ok();
+                    if ok {
+                        r.noid.retain(|x| x != h);
+                    }
+                    r.eng.reset();
+                    let fired = r.eng.fire_all();
+                    let armed = was && (ty == "F" || ty == "D");
+                    let want = if armed { 1 } else { 0 };
+                    let flag = if ok != was || fired.iter().filter(|n| n.starts_with("kill")).count() != want { "!fire" } else { "" };
+                    format!("{}{}", r.retracted(*h, armed), flag)
+                }
+                Ext::F(a) => {
+                    // step 1: the trigger fact
+                    let mut d = data_id(0, r.next());
+                    d.set("go", FactValue::Integer(1));
+                    let h = r.eng.insert("T".to_string(), d);
+                    let res = r.created(h, "T", true, &[]);
+                    r.observe(res);
+                    // step 2: the rule fires, its action returns one ActionResult
+                    let next = r.types.len() as u64 + 1;
+                    let (result, was): (ActionResult, bool) = match a {
+                        Act::R(x) => (ActionResult::Retract(FactHandle::new(*x)), r.present(*x)),
+                        Act::T(x) => {
+                            let ty = r.types.get((*x as usize).wrapping_sub(1)).cloned().unwrap_or_else(|| "none".to_string());
+                            // a shared type would make "the first fact of the type" a matter of HashSet order
+                            let ty = if ty.starts_with('N') { ty } else { "none".to_string() };
+                            (ActionResult::RetractByType(ty.clone()), ty != "none" && r.present(*x))
+                        }
+                        Act::I => (ActionResult::InsertFact { fact_type: "F".to_string(), data: data_id(8, next) }, false),
+                        Act::L(ps) => (
+                            ActionResult::InsertLogicalFact { fact_type: "D".to_string(), data: data_id(9, next), rule_name: "rule".to_string(), premises: hs(ps) },
+                            false,
+                        ),
+                        Act::U(x) => (ActionResult::Update(FactHandle::new(*x)), false),
+                        Act::N | Act::M => (ActionResult::None, false),
+                        Act::G => (ActionResult::ActivateAgendaGroup("side".to_string()), false),
+                        Act::C => (ActionResult::CallFunction { function_name: "nofn".to_string(), args: vec!["x".to_string()] }, false),
+                        Act::S => (ActionResult::ScheduleRule { rule_name: "act".to_string(), delay_ms: 5 }, false),
+                    };
+                    *script.lock().unwrap() = (Some(result), if *a == Act::M { 100 + next as i64 } else { 0 });
+                    r.eng.reset();
+                    let fired = r.eng.fire_all();
+                    let flag = if fired.iter().filter(|n| *n == "act").count() != 1 || script.lock().unwrap().0.is_some() { "!fire" } else { "" };
+                    let res = match a {
+                        Act::R(x) | Act::T(x) => r.retracted(*x, was),
+                        Act::I => {
+                            if r.present(next) { r.created(FactHandle::new(next), "F", true, &[]) } else { "hnone".to_string() }
+                        }
+                        Act::L(ps) => {
+                            if r.present(next) { r.created(FactHandle::new(next), "D", false, ps) } else { "hnone".to_string() }
+                        }
+                        Act::U(_) | Act::N | Act::G | Act::C | Act::S | Act::M => "c".to_string(),
+                    };
+                    format!("{}{}", res, flag)
+                }
+            },
+        };
+        r.observe(res);
+    }
+    if r.steps.is_empty() { "-".into() } else { r.steps.join(";") }
 }
 
 // ------------------------------------------------------------------------------------------ gen
@@ -303,26 +700,66 @@ struct Sim {
     n: u64,
     live: Vec<u64>,
     justs: Vec<(u64, bool, Vec<u64>)>,
+    kinds: Vec<u8>,
 }
 impl Sim {
     fn new() -> Sim {
-        Sim { n: 0, live: Vec::new(), justs: Vec::new() }
+        Sim { n: 0, live: Vec::new(), justs: Vec::new(), kinds: Vec::new() }
     }
     fn apply(&mut self, op: &Op) {
+        if let Op::Ext(e) = op {
+            // the reach ops in terms of the basic ones (what the driver's desugaring does)
+            match e {
+                Ext::N | Ext::P | Ext::D | Ext::G => {
+                    self.apply(&Op::I);
+                    *self.kinds.last_mut().unwrap() = kinds_of(op)[0];
+                }
+                Ext::U(_) | Ext::A | Ext::Z => {}
+                Ext::Lk(ps) => self.apply(&Op::L(ps.clone())),
+                Ext::W => {
+                    *self = Sim::new();
+                    self.apply(&Op::I);
+                    *self.kinds.last_mut().unwrap() = b'P';
+                }
+                Ext::K(h) => {
+                    if matches!(kind_at(&self.kinds, *h), b'F' | b'D') {
+                        self.apply(&Op::R(*h));
+                    }
+                }
+                Ext::F(a) => {
+                    self.apply(&Op::I);
+                    *self.kinds.last_mut().unwrap() = b'T';
+                    match a {
+                        Act::R(h) => self.apply(&Op::R(*h)),
+                        Act::T(h) => {
+                            if kind_at(&self.kinds, *h) == b'N' {
+                                self.apply(&Op::R(*h));
+                            }
+                        }
+                        Act::I => self.apply(&Op::I),
+                        Act::L(ps) => self.apply(&Op::L(ps.clone())),
+                        Act::U(_) | Act::N | Act::G | Act::C | Act::S | Act::M => {}
+                    }
+                }
+            }
+            return;
+        }
         match op {
             Op::I | Op::E => {
+                self.kinds.push(b'F');
                 self.n += 1;
                 self.live.push(self.n);
                 self.justs.push((self.n, true, vec![]));
             }
             Op::L(ps) => {
+                self.kinds.push(b'D');
                 self.n += 1;
                 self.live.push(self.n);
                 self.justs.push((self.n, false, ps.clone()));
             }
             Op::J(f, ps) => self.justs.push((*f, false, ps.clone())),
             Op::X(f) => self.justs.push((*f, true, vec![])),
-            Op::C => {}
+            Op::C | Op::Ext(_) => {}
             Op::R(h) => {
                 if !self.live.contains(h) {
                     return;
@@ -439,6 +876,14 @@ impl B {
     fn n(&self) -> u64 {
         self.sim.n
     }
+    /// a copy of the builder with further operations appended
+    fn with_ops(&self, more: &[Op]) -> B {
+        let mut b = B { ops: self.ops.clone(), sim: Sim { n: self.sim.n, live: self.sim.live.clone(), justs: self.sim.justs.clone(), kinds: self.sim.kinds.clone() } };
+        for o in more {
+            b.push(o.clone());
+        }
+        b
+    }
     fn retracted(&self) -> u64 {
         self.sim.retracted()
     }
@@ -447,7 +892,7 @@ impl B {
     }
     /// the history followed by the retractions `tail` (those whose handle is still live then)
     fn with(&self, tail: &[u64]) -> String {
-        let mut b = B { ops: self.ops.clone(), sim: Sim { n: self.sim.n, live: self.sim.live.clone(), justs: self.sim.justs.clone() } };
+        let mut b = B { ops: self.ops.clone(), sim: Sim { n: self.sim.n, live: self.sim.live.clone(), justs: self.sim.justs.clone(), kinds: self.sim.kinds.clone() } };
         for h in tail {
             if b.sim.live.contains(h) {
                 b.r(*h);
@@ -1050,6 +1495,216 @@ fn maintenance_calls(rng: &mut Rng, n: usize, out: &mut Vec<String>) {
     }
 }
 
+// ------------------------------------------------------------------ reach families (rule actions, twins, resets)
+//
+// Every path of IncrementalEngine through which facts are inserted, updated or retracted: API calls AND the ActionResults a
+// fired rule returns during fire_all (Retract — what GRL `retract($X)` produces —, RetractByType, InsertFact,
+// InsertLogicalFact, Update, None), the insert twins (insert_with_template, load_deffacts[_by_name], a fact type of its own),
+// update of a premise, add_rule / reset() in the middle of a history, and reset_with_deffacts() followed by normal use.
+
+/// every history of length <= maxlen over the reach alphabet, all handles among those created so far
+fn reach_exhaustive(maxlen: usize, out: &mut Vec<String>) {
+    fn rec(b: &B, maxlen: usize, out: &mut Vec<String>) {
+        if !b.ops.is_empty() {
+            out.push(b.case());
+        }
+        if b.ops.len() == maxlen {
+            return;
+        }
+        let n = b.n();
+        let mut nexts: Vec<Op> = vec![Op::I, Op::Ext(Ext::N), Op::Ext(Ext::F(Act::I))];
+        for h in 1..=n {
+            nexts.push(Op::L(vec![h]));
+            nexts.push(Op::Ext(Ext::F(Act::L(vec![h]))));
+            nexts.push(Op::Ext(Ext::F(Act::R(h))));
+            nexts.push(Op::Ext(Ext::K(h)));
+            if kind_at(&b.sim.kinds, h) == b'N' {
+                nexts.push(Op::Ext(Ext::F(Act::T(h))));
+            }
+        }
+        for op in nexts {
+            let mut b2 = b.with_ops(&[]);
+            b2.push(op);
+            rec(&b2, maxlen, out);
+        }
+    }
+    rec(&B::new(), maxlen, out);
+}
+
+/// the fixed support graphs, each fact retracted by a rule action (`Fr`), by the GRL rule after an update (`K`), and pairs
+/// of retractions mixing the three ways in both orders
+fn reach_shapes(out: &mut Vec<String>) {
+    let graphs: Vec<(&str, u64)> = vec![
+        ("I L1 L2 L3", 4),
+        ("I L1 L1 L2,3", 4),
+        ("I L1 L1 L2 J4:3", 4),
+        ("I I L1 J3:2 L3", 4),
+        ("I L1 L1 L1 L2,3,4", 5),
+        ("I L1 L2 J2:3", 3),
+        ("I L1 X2 L2", 3),
+        ("I L1,1 L2,1,2", 3),
+        ("N L1 L2 N L4 J3:4", 5),
+        ("P L1 D L1,3 G L5 J2:5", 6),
+    ];
+    for (g, n) in graphs {
+        let kinds: Vec<u8> = parse_case(g).unwrap().iter().flat_map(|o| kinds_of(o).iter().copied()).collect();
+        for a in 1..=n {
+            let mut ways = vec![format!("Fr{}", a), format!("K{}", a), format!("R{}", a)];
+            if kind_at(&kinds, a) == b'N' {
+                ways.push(format!("Ft{}", a));
+            }
+            for (i, w) in ways.iter().enumerate() {
+                if i != 2 {
+                    out.push(format!("{} {}", g, w));
+                    out.push(format!("{} A {} Z", g, w));
+                    out.push(format!("{} U{} {}", g, a, w));
+                    out.push(format!("{} Fm {}", g, w));
+                }
+                for b in 1..=n {
+                    if b == a {
+                        continue;
+                    }
+                    // second retraction by the other ways (handles of trigger facts created by an `F` do not shift 1..=n)
+                    for w2 in [format!("Fr{}", b), format!("K{}", b), format!("R{}", b)] {
+                        if i == 2 && w2.starts_with('R') {
+                            continue;
+                        }
+                        out.push(format!("{} {} {}", g, w, w2));
+                    }
+                }
+            }
+        }
+    }
+}
+
+/// random history over the whole alphabet (basic + reach ops), steered by the liveness simulation; `wf` keeps every
+/// premise / re-justified fact live; `resets` = number of reset_with_deffacts() calls somewhere in the middle
+fn reach_random(rng: &mut Rng, maxops: usize, maxf: u64, wf: bool, resets: usize) -> Vec<Op> {
+    let nops = rng.range(4, maxops as u64) as usize;
+    let mut b = B::new();
+    let mut reset_at: Vec<usize> = (0..resets).map(|_| rng.range(2, nops as u64 - 1) as usize).collect();
+    reset_at.sort();
+    for i in 0..nops {
+        if reset_at.contains(&i) {
+            b.push(Op::Ext(Ext::W));
+            continue;
+        }
+        let live = b.sim.live.clone();
+        let n = b.n();
+        let late = i * 2 >= nops;
+        let r = rng.below(100);
+        let pick = |rng: &mut Rng| -> u64 {
+            if live.is_empty() || (!wf && rng.chance(1, 10)) { rng.range(1, n.max(1) + 1) } else { *rng.pick(&live) }
+        };
+        if !live.is_empty() && (if late { r < 50 } else { r < 12 }) {
+            // a retraction, one of the four ways
+            let h = pick(rng);
+            let op = match rng.below(8) {
+                0 | 1 => Op::R(h),
+                2 | 3 | 4 => Op::Ext(Ext::F(Act::R(h))),
+                5 => Op::Ext(Ext::F(Act::T(h))),
+                _ => Op::Ext(Ext::K(h)),
+            };
+            b.push(op);
+            continue;
+        }
+        let c = rng.below(100);
+        if live.is_empty() || (n < maxf && c < 22) {
+            let op = match rng.below(9) {
+                0 | 1 => Op::I,
+                2 => Op::E,
+                3 | 4 => Op::Ext(Ext::N),
+                5 => Op::Ext(Ext::P),
+                6 => if rng.chance(1, 2) { Op::Ext(Ext::D) } else { Op::Ext(Ext::G) },
+                _ => Op::Ext(Ext::F(Act::I)),
+            };
+            b.push(op);
+        } else if n < maxf && c < 60 {
+            let pool: Vec<u64> = if wf || rng.chance(9, 10) { live.clone() } else { (1..=n).collect() };
+            let k = rng.range(1, 3) as usize;
+            let ps = pick_live(rng, &pool, k);
+            b.push(match rng.below(5) {
+                0 | 1 => Op::L(ps),
+                2 => Op::Ext(Ext::Lk(ps)),
+                _ => Op::Ext(Ext::F(Act::L(ps))),
+            });
+        } else if c < 75 {
+            let f = pick(rng);
+            let pool: Vec<u64> = if wf || rng.chance(9, 10) { live.clone() } else { (1..=n).collect() };
+            let ps = pick_live(rng, &pool, 1);
+            b.push(Op::J(f, ps));
+        } else if c < 80 {
+            let f = pick(rng);
+            b.push(Op::X(f));
+        } else {
+            // operations that insert and retract nothing
+            let h = if rng.chance(4, 5) { pick(rng) } else { rng.range(1, n + 2) };
+            let op = match rng.below(12) {
+                0 | 1 => Op::Ext(Ext::U(h)),
+                2 => Op::Ext(Ext::A),
+                3 => Op::Ext(Ext::Z),
+                4 => Op::Ext(Ext::F(Act::U(h))),
+                5 => Op::Ext(Ext::F(Act::N)),
+                6 | 7 | 8 => Op::Ext(Ext::F(Act::M)),
+                9 => Op::Ext(Ext::F(Act::G)),
+                10 => Op::Ext(Ext::F(if rng.chance(1, 2) { Act::C } else { Act::S })),
+                _ => Op::C,
+            };
+            b.push(op);
+        }
+    }
+    b.ops
+}
+
+fn reach_families(rng: &mut Rng, n: usize, tier: &str, out: &mut Vec<String>) {
+    let thorough = tier == "thorough";
+    reach_exhaustive(if thorough { 4 } else { 3 }, out);
+    reach_shapes(out);
+    // named shapes: the seeded demo (rule retracts a premise of a chain), an update of a premise before the retraction,
+    // a rule inserting a logical fact that a later rule retraction cascades away, resets followed by normal use
+    for shape in [
+        "I I L1 L3 L2 Fr1",
+        "I L1 L2 U1 U2 K1",
+        "I Fl1 Fl3 Fr1",
+        "I Fi Fl1,3 Fr3 Fr1",
+        "N L1 Fl2 Ft1",
+        "I L1 R1 W",
+        "I R1 W I L1 J3:2 R2",
+        "I L1 W L1 L2 Fr1",
+        "I L1 L2 R1 W W I L2 K2",
+        "P D G L1,2,3 K1 Fr2 R3",
+        "A I A L1 Z Fr1 Z",
+        "I L1 L2 Fm R1",
+        "I I L1,2 Fm Fm K2",
+        "I Lk1 Lk1,2 R1",
+        "I N P Lk1,2,3 Lk4 D Lk4,5 Ft2",
+        "I L1 Fg Fr1 Fc Fs",
+        "I L1 R1 C Fm C",
+    ] {
+        out.push(shape.to_string());
+    }
+    let m = n / 3;
+    for i in 0..m {
+        let wf = i % 8 != 7;
+        let resets = if i % 5 == 0 { 1 + (i % 10) / 5 } else { 0 };
+        out.push(show_case(&reach_random(rng, 12, 9, wf, resets)));
+    }
+    // beyond the small bound: deep chains whose root is retracted by a rule action / after an update; long mixed sessions
+    for d in [33usize, 64, 65, 100] {
+        for way in 0..2 {
+            let mut b = B::new();
+            let root = b.i();
+            b.chain(root, d);
+            b.push(if way == 0 { Op::Ext(Ext::F(Act::R(root))) } else { Op::Ext(Ext::K(root)) });
+            out.push(b.case());
+        }
+    }
+    for _ in 0..if thorough { 60 } else { 12 } {
+        let resets = if rng.chance(1, 3) { 1 } else { 0 };
+        out.push(show_case(&reach_random(rng, 90, 60, true, resets)));
+    }
+}
+
 fn gen(rng: &mut Rng, n: usize, tier: &str) -> Vec<String> {
     let mut out = Vec::new();
     let (maxlen, maxf) = if tier == "thorough" { (6usize, 4u64) } else { (5usize, 4u64) };
@@ -1065,6 +1720,7 @@ fn gen(rng: &mut Rng, n: usize, tier: &str) -> Vec<String> {
     deep_chains(rng, tier, &mut out);
     long_sessions(rng, tier, &mut out);
     wide_justifications(rng, tier, &mut out);
+    reach_families(rng, n, tier, &mut out);
     out
 }
 
@@ -1133,6 +1789,7 @@ fn remove_facts(ops: &[Op], gone: &[u64]) -> Vec<Op> {
                 }
             }
             Op::C => out.push(Op::C),
+            Op::Ext(_) => out.push(o.clone()),
         }
     }
     out
@@ -1372,6 +2029,39 @@ fn minimise_in_child(case: &str) -> Option<String> {
 
 fn shrink(case: &str) -> Vec<String> {
     let Some(ops) = parse_case(case) else { return vec![] };
+    if has_ext(&ops) {
+        // histories with reach ops: operations removed (handles keep their numbers only when no creating operation goes,
+        // so those candidates come first), a reach op replaced by the basic one it stands for, premises dropped
+        let mut out: Vec<String> = Vec::new();
+        let creating = |o: &Op| !kinds_of(o).is_empty();
+        for pass in 0..2 {
+            for i in (0..ops.len()).rev() {
+                if creating(&ops[i]) == (pass == 1) {
+                    let mut v = ops.clone();
+                    v.remove(i);
+                    out.push(show_case(&v));
+                }
+            }
+        }
+        for i in 0..ops.len() {
+            let simpler: Vec<Op> = match &ops[i] {
+                Op::Ext(Ext::N) | Op::Ext(Ext::P) | Op::Ext(Ext::D) | Op::Ext(Ext::G) => vec![Op::I],
+                Op::L(ps) if ps.len() > 1 => shrink_list(ps).into_iter().filter(|v| !v.is_empty()).map(Op::L).collect(),
+                Op::Ext(Ext::F(Act::L(ps))) if ps.len() > 1 => {
+                    shrink_list(ps).into_iter().filter(|v| !v.is_empty()).map(|v| Op::Ext(Ext::F(Act::L(v)))).collect()
+                }
+                _ => vec![],
+            };
+            for v in simpler {
+                let mut o2 = ops.clone();
+                o2[i] = v;
+                out.push(show_case(&o2));
+            }
+        }
+        let mut seen = std::collections::HashSet::new();
+        out.retain(|c| !c.is_empty() && c != case && seen.insert(c.clone()));
+        return out;
+    }
     let created = ops.iter().filter(|o| matches!(o, Op::I | Op::E | Op::L(_))).count() as u64;
     let mut generic: Vec<String> = shrink_list(&ops).into_iter().filter(|v| !v.is_empty()).map(|v| show_case(&v)).collect();
     // drop one premise somewhere
@@ -1482,5 +2172,36 @@ fn main() {
         println!("{}", out);
         return;
     }
+    if args.get(1).map(|s| s.as_str()) == Some("exec") {
+        exec_main();
+        return;
+    }
     main_with(Prop { gen, exec, shrink });
+}
+
+// the same exec loop as `rre_harness::main_with`, with fd 1 pointed at /dev/null while the cases run (the GRL loader's action
+// closures and `process_action_results` print to stdout); observations go to a duplicate of the original fd 1
+extern "C" {
+    fn dup(fd: i32) -> i32;
+    fn dup2(a: i32, b: i32) -> i32;
+}
+fn exec_main() {
+    use std::io::{BufRead, Write};
+    use std::os::fd::{AsRawFd, FromRawFd};
+    let saved = unsafe { dup(1) };
+    let null = std::fs::OpenOptions::new().write(true).open("/dev/null").unwrap();
+    unsafe { dup2(null.as_raw_fd(), 1) };
+    let mut out = std::io::BufWriter::new(unsafe { std::fs::File::from_raw_fd(saved) });
+    std::panic::set_hook(Box::new(|_| {}));
+    let stdin = std::io::stdin();
+    for line in stdin.lock().lines() {
+        let line = line.unwrap();
+        let line = line.trim_end();
+        if line.is_empty() {
+            continue;
+        }
+        writeln!(out, "{}", exec_guarded(exec, line)).unwrap();
+        out.flush().unwrap(); // per case: if the process dies or hangs, check.py knows which case did it
+    }
+    out.flush().unwrap();
 }
